@@ -73,6 +73,8 @@ pub static VIOLATION: Mutex<Option<(String, String)>> = Mutex::new(None);
 /// executions in which the non-trivial condition was observed
 pub static NONTRIVIAL: AtomicU64 = AtomicU64::new(0);
 pub static EXECUTIONS: AtomicU64 = AtomicU64::new(0);
+/// occurrences of a listed known finding that were tolerated (counted into the report)
+pub static EXCLUDED_KNOWN: AtomicU64 = AtomicU64::new(0);
 pub static DIR_COUNTER: AtomicU64 = AtomicU64::new(0);
 
 pub fn violation(sig: &str, detail: String) -> ! {
